@@ -170,6 +170,14 @@ def run(ctx: Ctx) -> int:
                             ("indefinite", None), ("nonminimal", None), ("drop", None), ("dup", None), ("high_tag", b"\x1f")):
                 add(tg, blobfuzz.render(tree, (path, op, arg), trailing), f"node{path}:{op}", meter=(len(path) % 2 == 0))
                 ctx.distinct((tg.mode, path, op, arg))
+            # the node under every other tag of its class: the other CHOICE alternatives of CMS ([0]..[6]: other RecipientInfo
+            # kinds, optional members that are normally absent) and the other universal types
+            tag0 = blobfuzz.node_at(tree, path)[0]
+            alts = [(tag0 & 0xE0) | n for n in range(7)] if tag0 & 0xC0 == 0x80 else [0x02, 0x04, 0x06, 0x0C, 0x31, 0xA0]
+            for alt in alts:
+                if alt != tag0:
+                    add(tg, blobfuzz.render(tree, (path, "wrong_tag", alt), trailing), f"node{path}:retag", meter=(alt % 2 == 0))
+                    ctx.distinct((tg.mode, path, "retag", alt))
         # (b2) all truncations, sampled bit flips
         for n in range(len(tg.blob)):
             add(tg, tg.blob[:n], f"truncate {n}", meter=(n % 4 == 0))
